@@ -22,6 +22,10 @@ import (
 //	"sub_self"      the event stream's own PID is subscribed to itself, then k events
 //	"concurrent_stops" 12 rounds: k actors are poisoned at the same moment by k goroutines, and when all the stop contexts
 //	                are done one message is sent to each: k dead letters per round, and no PID is registered any more
+//	"nil_targets"   Send / SendWithSender / SendLocal / Poison / Stop / Request with a nil PID: no panic, nobody blocks,
+//	                SendLocal(nil) and the two pills are one dead letter each (target nil), Send(nil) is dropped
+//	"send_in_stopped" an actor is poisoned and held inside its Stopped handler (it is still registered there); k messages
+//	                are sent to it at that moment, then it is released: every one of them is one dead letter, none is lost
 //	"remote_dead_sub" on an engine configured with a remote: a subscriber stops without unsubscribing, then k events
 //
 // Observation: how many DeadLetterEvents a monitor saw for the probe, whether the engine came to
@@ -66,6 +70,14 @@ func runCorner09(raw json.RawMessage) (any, error) {
 			if m.Target != nil && (m.Target.ID == "nobody/x" || strings.HasPrefix(m.Target.ID, "cs/")) {
 				dead.Add(1)
 			}
+			if m.Target != nil && m.Target.ID == "held/x" {
+				if _, isMsg := m.Message.(cornerMsg); isMsg {
+					dead.Add(1)
+				}
+			}
+			if m.Target == nil && c.Kind == "nil_targets" {
+				dead.Add(1)
+			}
 		default:
 			total.Add(1)
 		}
@@ -105,6 +117,30 @@ func runCorner09(raw json.RawMessage) (any, error) {
 		switch c.Kind {
 		case "nilmsg":
 			e.Send(nobody, nil)
+		case "nil_targets":
+			e.Send(nil, cornerMsg{1})
+			e.SendWithSender(nil, cornerMsg{2}, mon)
+			e.SendLocal(nil, cornerMsg{3}, nil)
+			<-e.Poison(nil).Done()
+			<-e.Stop(nil).Done()
+			if _, err := e.Request(nil, cornerMsg{4}, 20*time.Millisecond).Result(); err == nil {
+				obs.Note = "a request to a nil PID got a reply"
+			}
+		case "send_in_stopped":
+			inStopped, release := make(chan struct{}), make(chan struct{})
+			held := e.SpawnFunc(func(ctx *actor.Context) {
+				if _, ok := ctx.Message().(actor.Stopped); ok {
+					close(inStopped)
+					<-release
+				}
+			}, "held", actor.WithID("x"))
+			stop := e.Poison(held)
+			<-inStopped
+			for i := 0; i < c.K; i++ {
+				e.Send(held, cornerMsg{i})
+			}
+			close(release)
+			<-stop.Done()
 		case "events_gone":
 			<-e.Poison(es).Done()
 			e.Send(nobody, cornerMsg{1})
